@@ -53,7 +53,7 @@ CHECKS = {
           'exactly once; every run() iteration forwards what it dequeued, not a copy; store producer/consumer shape agreement; '
           'identity fields written only in Packet.__init__ (+ sender re-stamp); no assert on a level the loop sets to 0; '
           'servers spawned once with their own environment; no uncovered override.',
-          'C08', 'path, shape and who-may rules over all element classes', 'kernel stores are FIFO / heap ordered (C07); no re-entrancy through out.put'),
+          'C08', 'path, shape and who-may rules over all element classes', 'kernel stores are FIFO / heap ordered (C07); re-entrancy through out.put only as far as the order of stores and hand-overs'),
  'C09': c('Port.put (thresholds, byte accounting, hop stamp), Port.run (8*size/rate, bytes released on every path, one '
           'forward), REDPort.put (EWMA gain, three regions, one draw), PortMonitor.run (packet in service = what the port server holds, also before it is resumed) equivalent to reference tables; inc/dec '
           'pairing of byte_size for Port and every subclass; overriding put keeps the base effects.',
